@@ -95,6 +95,17 @@ func genC15Scenario(r *Rng, tier string) *Plan {
 	worldParams(r, p)
 	f := genForest(r, ForestOpts{MaxEnts: 5, MaxDepth: 3, Mix: mixFast, MaxExts: 2, Dirs: r.Bool(), Aliases: r.Bool(),
 		ExtCase: r.Chance(1, 4), KeyIDs: true, Validity: valRelative, JSONMix: r.Chance(1, 4)})
+	if r.Chance(1, 6) {
+		// certificates that come out byte-identical when issued again: RSA issuers (PKCS#1 v1.5
+		// signatures are deterministic), pinned serial numbers, static validity, reused keys - "was
+		// this file rewritten" and "did its content change" are different questions here
+		for _, e := range f.Ents {
+			e.KeyAlg, e.Serial = "RSA-1024", 1000+r.I64n(1<<30)
+			e.SigAlg = Pick(r, rsaSigAlgs)
+			e.Validity = &ValSpec{From: "1999-01-02", Until: "2150-03-04"}
+		}
+		p.Meta["deterministic-reissue"] = "1"
+	}
 	var prof *ProfileSpec
 	if r.Chance(1, 3) {
 		prof = genSimpleProfile(r, "p1")
@@ -117,6 +128,19 @@ func genC15Scenario(r *Rng, tier string) *Plan {
 		if trigger == "expiry" {
 			target.Validity = &ValSpec{Duration: "1d"}
 			target.Profile = ""
+		}
+	}
+	if p.Meta["deterministic-reissue"] != "" {
+		// a trigger that re-issues an issuer as it was (same name, same key), so that what is issued
+		// below it comes out identical too
+		full, trigger = true, Pick(r, []string{"touch-o", "all", "edit-exts", "edit-exts", "edit-exts"})
+		target = Pick(r, f.Ents)
+		for _, e := range f.Ents {
+			for _, c := range f.Ents {
+				if c != e && c.Issuer == e.EffAlias() {
+					target = e
+				}
+			}
 		}
 	}
 	for _, e := range f.Ents {
@@ -142,6 +166,11 @@ func genC15Scenario(r *Rng, tier string) *Plan {
 		switch trigger {
 		case "edit-subject":
 			p.Add(Op{K: "put-ent", Spec: editSubject(r, target), Label: "edit-subject"})
+		case "edit-exts":
+			// the issuer's certificate changes, its name and key do not
+			ne := target.Clone()
+			ne.Exts = append(ne.Exts, ExtSpec{Kind: "custom", Oid: genOid(r), Raw: "!binary:" + b64(r.Bytes(6))})
+			p.Add(Op{K: "put-ent", Spec: ne, Label: "edit-exts"})
 		case "del-art":
 			p.Add(Op{K: "del-art", Ent: target.ID})
 		case "strip-key":
